@@ -77,7 +77,7 @@ func (C04) Runs(tier string) uint64 {
 	return 200000
 }
 
-var specials = []string{"'", "\"", "/", "\\", "*", "$", "\r", "\n", "\x00", "\xff", "\xc3", "(", ")", ";", "--", "/*", "*/", "=~", "!~", "::", ".", ",", "+", "-", "1e", "µ", "€", "\\'", "\\\"", "\\n", "$p0", "$p1", " "}
+var specials = []string{"'", "\"", "/", "\\", "*", "$", "\r", "\n", "\x00", "\xff", "\xc3", "(", ")", ";", "--", "/*", "*/", "=~", "!~", "::", ".", ",", "+", "-", "1e", "µ", "€", "\\'", "\\\"", "\\n", "$p0", "$p1", " ", "\u0080", "\u00a0", "\u07ff", "\u0800", "\uffff", "\U00010000", "\U0010ffff", "\ufffd", "\u2028", "\u212a", "\u0130", "\u017f", "\xc2\x80", "\xed\xa0\x80", "\xf4\x90\x80\x80", "\xc0\x80"}
 
 // Soup makes a token soup: every token spelling in every neighbourhood.
 func Soup(r *core.Rand, n int) string {
@@ -86,6 +86,15 @@ func Soup(r *core.Rand, n int) string {
 		"/re/", "/a\\/b/", "/unterminated", "/web(/", "/[/", "/a{2,1}/", "=~ /x(/", "=~ /ok/", "-- line comment\n", "/* block */", "/* unterminated", " ", "\t", "\n", "\r\n", "\r", "é", "日本", "\xff", "\x00", "DISTINCT", "AS", "INTO", "fill(", "TZ(", "ON", "LIMIT", "field", "tag", "INF", "EXPLAIN", "SHOW", "KEY", "IN", "WITH"}
 	var b strings.Builder
 	for i := 0; i < n; i++ {
+		if r.Chance(1, 12) {
+			// identifiers and strings of multi-byte runes of every small length, bare and quoted;
+			// characters on UTF-8 encoding boundaries and with unusual case folding
+			unit := r.Pick([]string{"é", "日", "\u0080", "\u212a", "\u0130", "\U00010000", "aé", "\u017f"})
+			w := strings.Repeat(unit, r.Range(1, 24))
+			b.WriteString(r.Pick([]string{w, "\"" + w + "\"", "'" + w + "'", "a.b.c.\"" + w + "\"", "\u212aEY", "SELECT \"" + w + "\" FROM \"" + w + "\""}))
+			b.WriteByte(' ')
+			continue
+		}
 		b.WriteString(toks[r.Intn(len(toks))])
 		if r.Chance(1, 2) {
 			b.WriteByte(' ')
@@ -451,6 +460,8 @@ func (C04) NewPlan(r *core.Rand, tier string, i uint64) interface{} {
 				p.Session = append(p.Session, core.RawStr("SELECT f FROM m WHERE t =~ "+r.Pick([]string{"/web(/", "/ok/", "/[/", "/a|b/", "/^x$/"})))
 			case 1:
 				p.Session = append(p.Session, core.RawStr(Soup(r, r.Range(2, 12))))
+			case 2:
+				p.Session = append(p.Session, core.RawStr("SELECT f FROM m TZ('"+r.Pick([]string{"Mars/Olympus_Mons", "UTC", "America/New_York", "", "No/Such"})+"')"))
 			default:
 				p.Session = append(p.Session, core.RawStr(gen.Query(r, o)))
 			}
